@@ -218,3 +218,55 @@ Proof.
   - exists ex_stream_a, (skipn 7 (spec_encode_message ex_stream_a)). split; [split; vm_compute; reflexivity|].
     split; [apply firstn_skipn|vm_compute; discriminate].
 Qed.
+
+(* ---- valid messages, then garbage ---- *)
+
+(* peeling the complete, well-formed messages off the front of ANY buffer *)
+Lemma qm_peel : forall ms f msgs0 tail, Forall sendable ms ->
+  (length (concat (map spec_encode_message ms) ++ tail) < f)%nat ->
+  exists msgs f', Forall2 delivered ms msgs /\ (length tail < f')%nat /\
+    queue_messages f (mkLoader (concat (map spec_encode_message ms) ++ tail) false V_VALID msgs0 0 DBUS_MAXIMUM_MESSAGE_LENGTH)
+    = queue_messages f' (mkLoader tail false V_VALID (msgs0 ++ msgs) 0 DBUS_MAXIMUM_MESSAGE_LENGTH).
+Proof.
+  induction ms as [|m ms IH]; intros f msgs0 tail HS Hf.
+  - exists [], f. rewrite app_nil_r. split; [constructor|]. split; [exact Hf|reflexivity].
+  - inversion HS as [|? ? [W Hn] HS']; subst.
+    destruct f as [|f]; [lia|]. cbn [map concat] in *. rewrite <- app_assoc in *.
+    set (rest := concat (map spec_encode_message ms) ++ tail) in *.
+    destruct (loader_complete_clean m rest 0 W ltac:(lia)) as (Hh & hs & HF & Hl & He). cbv zeta in *.
+    rewrite qm_S. cbn [l_buf l_corrupted l_reason l_msgs l_fds l_max].
+    pose proof (encode_len m) as HL.
+    replace (nlen (spec_encode_message m ++ rest) <? DBUS_MINIMUM_HEADER_SIZE) with false
+      by (rewrite nlen_app, HL; unfold m_hlen; change DBUS_MINIMUM_HEADER_SIZE with 16; lia).
+    rewrite Hh, Hl. cbn [m_nfds].
+    rewrite skipn_app_exact by (rewrite <- HL; symmetry; apply nlen_len). rewrite Hn. change (0 - 0) with 0.
+    assert (Hf' : (length rest < f)%nat).
+    { rewrite app_length in Hf. assert (16 <= nlen (spec_encode_message m)) by (rewrite HL; unfold m_hlen; lia).
+      unfold nlen in *. lia. }
+    destruct (IH f (msgs0 ++ [mkMsg (firstn (N.to_nat (m_hlen m)) (spec_encode_message m)) (m_bodyb m) hs 0]) tail HS' Hf') as (msgs & f' & F2 & Hlt & E).
+    fold rest in E.
+    eexists (_ :: msgs), f'. rewrite E, <- app_assoc. split; [|split; [exact Hlt|reflexivity]].
+    constructor; [|exact F2]. unfold delivered. cbn [m_header m_body m_nfds m_fields].
+    split; [exact He|]. split; [reflexivity|]. split; [reflexivity|]. split; [exact HF|].
+    apply (reader_msg m). exact (proj1 (proj1 (wf_msg_iff m) W)).
+Qed.
+
+(* valid messages followed by bytes whose fixed header the framing test rejects: the valid ones are all delivered,
+   then the connection is declared corrupt; nothing of [bad] becomes a message, whatever follows it *)
+Theorem stream_then_corruption ms bad chunks r : Forall sendable ms ->
+  16 <= nlen bad -> have_message DBUS_MAXIMUM_MESSAGE_LENGTH bad = HaveInvalid r ->
+  concat chunks = concat (map spec_encode_message ms) ++ bad ->
+  exists msgs, outcome (feed_all loader_new chunks) = (true, msgs) /\ Forall2 delivered ms msgs.
+Proof.
+  intros HS H16 Hbad Hc. rewrite chunking_unconditional, Hc.
+  unfold feed, loader_new. cbn [l_buf l_corrupted l_reason l_msgs l_fds l_max app]. change (0 + 0) with 0.
+  destruct (qm_peel ms (S (length (concat (map spec_encode_message ms) ++ bad))) [] bad HS ltac:(lia)) as (msgs & f' & F2 & Hlt & E).
+  exists msgs. rewrite E. split; [|exact F2].
+  destruct f' as [|f']; [lia|]. rewrite qm_S. cbn [l_buf l_corrupted l_reason l_msgs l_fds l_max app].
+  replace (nlen bad <? DBUS_MINIMUM_HEADER_SIZE) with false by (change DBUS_MINIMUM_HEADER_SIZE with 16; lia).
+  rewrite Hbad. reflexivity.
+Qed.
+Print Assumptions stream_then_corruption.
+
+Example ex_bad_header : exists r, have_message DBUS_MAXIMUM_MESSAGE_LENGTH (repeat 0 16 ++ [1;2;3]) = HaveInvalid r.
+Proof. eexists. vm_compute. reflexivity. Qed.
